@@ -3,6 +3,7 @@ package c20
 import (
 	"bytes"
 	"context"
+	"errors"
 	"fmt"
 	"log"
 	"net"
@@ -10,6 +11,7 @@ import (
 	"strings"
 	"sync"
 	"sync/atomic"
+	"syscall"
 	"time"
 
 	"github.com/0xReLogic/Helios/internal/config"
@@ -62,8 +64,54 @@ func (b *wsBackend) ServeHTTP(w http.ResponseWriter, r *http.Request) {
 	}
 	p := newPeer(fmt.Sprintf("backend%d", b.index), c, b.notify)
 	p.handshake = r.Header.Clone()
+	p.echoAll = r.Header.Get("X-Verif-Echo-All") == "1" // an echo server: every data message is sent back
 	p.start()
 	b.accepted <- p
+}
+
+// envPrefix marks a failure of the environment (ephemeral ports exhausted by TIME_WAIT sockets when many
+// socket checks run at once), not of Helios: the run is then inconclusive, never a violation.
+const envPrefix = "environment: "
+
+func portExhausted(err error) bool {
+	return err != nil && (errors.Is(err, syscall.EADDRINUSE) || errors.Is(err, syscall.EADDRNOTAVAIL))
+}
+
+// listenLoopback listens on 127.0.0.1:0, waiting (budget 30 s) while the host has no free port.
+func listenLoopback() (net.Listener, error) {
+	var err error
+	for i := 0; i < 150; i++ {
+		var ln net.Listener
+		if ln, err = net.Listen("tcp", "127.0.0.1:0"); err == nil {
+			return ln, nil
+		}
+		if !portExhausted(err) {
+			return nil, err
+		}
+		time.Sleep(200 * time.Millisecond)
+	}
+	return nil, fmt.Errorf("%sno free loopback port for 30 s: %w", envPrefix, err)
+}
+
+// dialRetry runs dial, waiting (budget 30 s) while the host cannot assign a local port.
+func dialRetry(dial func() error) error {
+	var err error
+	for i := 0; i < 150; i++ {
+		if err = dial(); !portExhausted(err) {
+			return err
+		}
+		time.Sleep(200 * time.Millisecond)
+	}
+	return fmt.Errorf("%sno local port for an outgoing connection for 30 s: %w", envPrefix, err)
+}
+
+// envProblem records an environment failure as a harness problem (exit 2) and reports true.
+func envProblem(msg string) bool {
+	if strings.Contains(msg, envPrefix) {
+		lab.Problem("C20: %s", msg)
+		return true
+	}
+	return false
 }
 
 type wsLab struct {
@@ -84,12 +132,12 @@ func newWSLab(strategy string, nBackends int, mutate func(*config.Config)) (*wsL
 	cfg.Server.Port = 8080
 	cfg.LoadBalancer.Strategy = strategy
 	for i := 0; i < nBackends; i++ {
-		ln, err := net.Listen("tcp", "127.0.0.1:0")
+		ln, err := listenLoopback()
 		if err != nil {
 			l.Close()
 			return nil, err
 		}
-		b := &wsBackend{index: i, ln: ln, accepted: make(chan *peer, 16), notify: l.notify}
+		b := &wsBackend{index: i, ln: ln, accepted: make(chan *peer, 64), notify: l.notify}
 		b.srv = &http.Server{Handler: b, ErrorLog: lab.DiscardLogger()}
 		go func() { _ = b.srv.Serve(ln) }()
 		l.backends = append(l.backends, b)
@@ -117,7 +165,7 @@ func newWSLab(strategy string, nBackends int, mutate func(*config.Config)) (*wsL
 		l.Close()
 		return nil, err
 	}
-	ln, err := net.Listen("tcp", "127.0.0.1:0")
+	ln, err := listenLoopback()
 	if err != nil {
 		l.Close()
 		return nil, err
@@ -208,6 +256,7 @@ type peer struct {
 	pongs    [][]byte // pong payloads received
 	nData    int      // data messages received
 	echo     map[int]bool
+	echoAll  bool
 	writeErr error
 	readErr  error
 	events   int64
@@ -271,7 +320,7 @@ func (p *peer) readLoop() {
 		p.recv = append(p.recv, msg{mt, data})
 		k := p.nData
 		p.nData++
-		doEcho := p.echo[k]
+		doEcho := p.echo[k] || p.echoAll
 		p.events++
 		p.mu.Unlock()
 		p.poke()
